@@ -26,3 +26,9 @@ def area_world(rng, spherical=None, cross=None, nfeat=None, temp_allow=("uniform
             c = None
         w["features"].append(g.area_feature("f%d" % i, sph, centre=c, temp_allow=temp_allow))
     return w, sph
+
+
+def any_world(rng, spherical=None, cross=None):
+    """worlds with every feature type (used by oracles that do not need the model).
+    Until the line features and plumes have generators this is the area-feature family."""
+    return area_world(rng, spherical, cross)
